@@ -249,13 +249,14 @@ def check_scipy(case):
     res = []
     names = names_of(case)
     allv = names["vars"] + names["syms"] + names["params"] + [n + "'" for n in names["params"]]
-    val0 = K.sym_val(allv)
+    val0 = K.sym_val(allv + ["zq", "a0"])
+    allv = allv + ["zq", "a0"]
     val1 = {**val0, **{n: val0[n + "'"] for n in names["params"]}}
     val = val0
     tag0 = f"scipy {case[0]} {_kind(case[1])} {_kind(case[2])}"
     sig00 = f"{case[0]}|{_kind(case[1])}|{_kind(case[2])}"
 
-    def run(second=False):
+    def run(second=False, pre=False):
         try:
             c = build_constraint(case, val)
         except Exception as e:  # noqa: BLE001
@@ -270,11 +271,26 @@ def check_scipy(case):
                 obj = vv * vv if obj is None else obj + vv * vv
         if obj is None:
             return None
-        p.minimize(obj)
-        try:
-            p.subject_to(c)
-        except Exception:  # noqa: BLE001
-            return None
+        if pre:
+            # the problem first had an objective over ANOTHER variable set of the SAME size (a0 instead of zq: other
+            # columns) and was solved; then the objective was replaced.  The constraint stays the relation written.
+            from optyx import Variable
+            zq, a0 = Variable("zq"), Variable("a0")
+            p.minimize(obj + a0 * a0)
+            try:
+                p.subject_to(c)
+            except Exception:  # noqa: BLE001
+                return None
+            with stubs.patched(stubs.MinimizeStub("fixed"), None), warnings.catch_warnings():
+                warnings.simplefilter("ignore")
+                p.solve(method="SLSQP")
+            p.minimize(obj + zq * zq)
+        else:
+            p.minimize(obj)
+            try:
+                p.subject_to(c)
+            except Exception:  # noqa: BLE001
+                return None
         ms = stubs.MinimizeStub("fixed")
         with stubs.patched(ms, None), warnings.catch_warnings():
             warnings.simplefilter("ignore")
@@ -296,6 +312,9 @@ def check_scipy(case):
         if out is None:
             continue
         runs.append((pc, out[0], out[1], val0, tag0, sig00, False))
+    for dec, labels, pc, out in K.explore(lambda: run(False, True), max_paths=200):
+        if out is not None:
+            runs.append((pc, out[0], out[1], val0, tag0 + " [objective replaced after a solve: other variables, same count]", sig00 + "|reobj", "pre"))
     if names["params"]:
         # (the closures read the parameters when called, so the updated run is explored separately)
         for dec, labels, pc, out in K.explore(lambda: run(True), max_paths=200):
@@ -314,8 +333,8 @@ def check_scipy(case):
             x[i] = val[n]
         w, dom = want(case, val)
         dicts = list(call["constraints"])
-        payload = dict(kind="scipy", case=K.enc(case), upd=upd)
-        if upd:
+        payload = dict(kind="scipy", case=K.enc(case), upd=(upd is True), pre=(upd == "pre"))
+        if upd is True:
             dom = dom + want(case, val0)[1]
         if len(dicts) != len(w):
             res.append(violation(f"C10|scipy-count|{sig0}", f"{tag}: {len(dicts)} dicts for {len(w)} elements", payload))
@@ -420,6 +439,8 @@ def _replay_scipy(case, payload):
     allv = names["vars"] + names["syms"] + names["params"] + [n + "'" for n in names["params"]]
     rng = random.Random(2)
     upd = bool(payload.get("upd"))
+    pre = bool(payload.get("pre"))
+    allv = allv + ["zq", "a0"]
     for pt in K.candidate_points(allv, payload.get("values", {}), 3, n=6):
         c = build_constraint(case, pt)
         cons = c if isinstance(c, list) else [c]
@@ -428,7 +449,12 @@ def _replay_scipy(case, payload):
         for cc in cons:
             for vv in sorted(cc.get_variables(), key=lambda q: q.name):
                 obj = vv * vv if obj is None else obj + vv * vv
-        p.minimize(obj).subject_to(c)
+        if pre:
+            from optyx import Variable
+            zq, a0 = Variable("zq"), Variable("a0")
+            p.minimize(obj + a0 * a0).subject_to(c)
+        else:
+            p.minimize(obj).subject_to(c)
         cap = []
 
         def fake(fun, x0, **kw):
@@ -440,6 +466,10 @@ def _replay_scipy(case, payload):
             with warnings.catch_warnings():
                 warnings.simplefilter("ignore")
                 p.solve(method="SLSQP")
+                if pre:
+                    p.minimize(obj + zq * zq)
+                    del cap[:]
+                    p.solve(method="SLSQP")
                 if upd:
                     from optyx.core.parameters import Parameter
                     for cc in cons:
